@@ -1468,10 +1468,12 @@ func (gs *GossipSubRouter) Join(topic string) {
 	if ok {
 		backoff := gs.backoff[topic]
 		// these peers have a score above the publish threshold, which may be negative
-		// so drop the ones with a negative score
+		// so drop the ones with a negative score; a fanout peer may also have been
+		// tagged as direct since it was selected, and direct peers are never grafted
 		for p := range gmap {
 			_, doBackOff := backoff[p]
-			if gs.score.Score(p) < 0 || doBackOff {
+			_, direct := gs.direct[p]
+			if gs.score.Score(p) < 0 || doBackOff || direct {
 				delete(gmap, p)
 			}
 		}
